@@ -1,3 +1,4 @@
+import XsgModel.Model.Absorb
 import XsgModel.Driver.Props
 import XsgModel.Model.Ops
 import XsgModel.Model.Cli
@@ -232,6 +233,22 @@ def checkC06Single (c : HCase) : Verdict :=
               else .prop s!"step={i} not the schema of the union: {showSchema t.abs.canon} vs {showSchema (specOfDocs ds).canon}"
           | .error m => .prop s!"step={i} error on a well-formed document: {showName m}")
       | none => .ok,
+    -- the same for inputs that repeat their root element (`C06_fragments_spec`): all top-level elements count
+    fun _ => if !(c.docs.any fun d => d.frag.isSome) then .ok else
+      match c.docs.mapM (·.topItems) with
+      | some tops =>
+        match tops.head?.bind (fun is => is.childNames.head?) with
+        | none => .ok
+        | some k =>
+          if !(tops.all fun is => is.ok && is.childNames == [k]) then .ok else
+          firstBad (((obs.zip (prefixes tops)).zipIdx).map fun ((s, ts), i) => fun _ =>
+            let occs := ts.flatMap (·.named k)
+            match s.implRes with
+            | .ok t => if schemaEq t.abs (specOfDocs occs) then .ok
+                else .prop s!"step={i} not the schema of all top-level elements: {showSchema t.abs.canon} vs {showSchema (specOfDocs occs).canon}"
+            | .error m => .prop s!"step={i} error on well-formed elements: {showName m}")
+      | none => .ok,
+    fun _ => domEventsOk c.docs,
     -- monotone: no step drops a field, makes an Option required or a Vec single
     fun _ => firstBad ((obs.zip (obs.drop 1)).map fun (a, b) => fun _ =>
       match a.implTree, b.implTree with
